@@ -135,7 +135,7 @@ let rec gen_sorted len keys from : int list list =
   else List.concat (List.init (max 0 (keys - from)) (fun d ->
          let k = from + d in List.map (fun t -> k :: t) (gen_sorted (len - 1) keys k)))
 
-let run_exh c m lo hi keys =
+let run_exh ?(part = 0) ?(nparts = 1) c m lo hi keys =
   let pool = List.concat (List.init (hi - lo + 1) (fun d -> gen_sorted (lo + d) keys 0)) in
   let pool = if c = "G" then List.map List.rev pool
     else if c = "Q" then List.map (fun s -> let sz = List.length s in List.mapi (fun k x -> x * 4 + ((k * 7 + sz) mod 4)) s) pool
@@ -145,7 +145,7 @@ let run_exh c m lo hi keys =
   let idx = Array.make m 0 in
   let continue = ref true in
   while !continue do
-    run_tuple c (Array.to_list (Array.map (fun i -> pool.(i)) idx)) (-1);
+    if idx.(0) mod nparts = part then run_tuple c (Array.to_list (Array.map (fun i -> pool.(i)) idx)) (-1);
     let k = ref (m - 1) in
     let carry = ref true in
     while !carry && !k >= 0 do
@@ -223,6 +223,8 @@ let () =
       | ["sel"; c; r; s] -> run_sel c (parse_seqs s) (int_of_string r)
       | ["sel"; c; r] -> run_sel c [[]] (int_of_string r)
       | ["narrow"; c; _; r; s] -> run_tuple c (parse_seqs s) (int_of_string r)   (* RankType is not part of the model *)
+      | ["exh"; c; m; lo; hi; keys; part; nparts] ->
+        run_exh ~part:(int_of_string part) ~nparts:(int_of_string nparts) c (int_of_string m) (int_of_string lo) (int_of_string hi) (int_of_string keys)
       | ["exh"; c; m; lo; hi; keys] -> run_exh c (int_of_string m) (int_of_string lo) (int_of_string hi) (int_of_string keys)
       | [] -> ()
       | _ -> print_endline "?"
